@@ -38,6 +38,7 @@ EXPLANATION += (' R-C18-2 also requires the reported transition to be the midpoi
 EXPLANATION += (" R-C18-4 also treats rounding of a load- or cycle-typed value to a fixed number of digits or to whole numbers (round, np.round, floor, astype(int)) as a comparison with a fixed grid. R-C18-2 inlines the locals of the zone split and reports a zone selected by index labels (index.isin, drop, difference) instead of by the load of each test.")
 EXPLANATION += (' R-C18-8: every stats.linregress call of the analysis modules is preceded by a test of the spread of its regressor (np.ptp, unique / nunique, max together with min) in the same function or in every entry point that reaches it: exact Basquin data have zero spread after the pearl-chain shift and a regression over coinciding abscissae is 0/0.')
 EXPLANATION += (' R-C18-9: no function of the analysis modules writes a private attribute of an object other than self (zones and transition are derived by each fatigue data object from its own rows); zero instances expected, built-in example.')
+EXPLANATION += (' R-C18-11 (shared state-family rules, sa/statefam.py): no constructor of the Woehler analysis classes keeps a property of the fatigue data (fractures, infinite_zone, ...) that is computed from the finite/infinite transition, which methods of FatigueData change after construction; the zones are read when the likelihood is evaluated.')
 ASSUMPTIONS = [
     "scipy.stats.linregress and sums are invariant under a common permutation of their paired arguments",
     "pandas groupby sorts group keys by default; np.unique and the 1-D set operations return sorted arrays",
@@ -56,6 +57,32 @@ def run(ctx):
     ctx.attempt(_r7)
     ctx.attempt(_r8)
     ctx.attempt(_r9)
+    ctx.attempt(_r11_snapshots)
+
+
+def _r11_snapshots(ctx):
+    """R-C18-11 (state families, sa/statefam.py): the likelihood and the analyzers read the finite / infinite zones of the fatigue
+    data WHEN they are evaluated.  A constructor that keeps `fatigue_data.infinite_zone` / `.finite_zone` (properties computed from
+    the transition, which set_finite_infinite_transition() / conservative_finite_infinite_transition() change later) evaluates the
+    likelihood on zones that are no longer the reported ones: 'the finite and infinite zones partition the tests at the reported
+    transition' fails for analyse - change transition - analyse."""
+    from .. import statefam
+    prog = ctx.prog
+    statefam.selftest()
+    ctx.rule("R-C18-11", floor=3, what="no constructor in the Woehler analysis keeps zone data derived from the changeable transition")
+    owners = [ci for k, ci in prog.classes.items() if ci.module.name == "pylife.materialdata.woehler.fatigue_data"]
+    if not owners:
+        raise AnalysisError("FatigueData class not found")
+    for k, ci in sorted(prog.classes.items()):
+        if not ci.module.name.startswith("pylife.materialdata.woehler") or ci in owners or "__init__" not in ci.methods:
+            continue
+        hits = statefam.constructor_snapshots(prog, ci, owners)
+        for fi, st, kept, src, oc, changed in hits:
+            ctx.violated(fi, st, "%s.__init__ keeps %s in self.%s; %s.%s is computed from self.%s, which methods of %s change after "
+                         "construction: the object goes on working with the zones of construction time"
+                         % (ci.name, src, kept, oc.name, src.split(".")[-1], ", self.".join(changed), oc.name), text="snapshot of " + src.split(".")[-1])
+        if not hits:
+            ctx.holds(ci.key, None, "%s.__init__ keeps the fatigue data object, not zone data derived from it" % ci.name)
 
 
 SPREAD_FUNCS = ("np.ptp", "np.unique", "np.var", "np.std")
